@@ -261,4 +261,47 @@ def applyOp (m : SModel) : SOp → SModel
 
 def runOps (m : SModel) (ops : List SOp) : SModel := ops.foldl applyOp m
 
+/-! ### validity of an equation order, executable -/
+
+/-- every zero-shift LHS name an equation reads is its own LHS or the LHS of an earlier equation
+(`SeqValid` of Lemmas/Blazer.lean, as a Bool; `seqValidB_iff`) -/
+def seqValidB (m : SModel) : Bool :=
+  (List.range m.length).all fun k =>
+    match m[k]? with
+    | none => true
+    | some e => e.reads.all fun v =>
+        !(m.map (·.lhs)).contains v || v == e.lhs || ((m.take k).map (·.lhs)).contains v
+
+/-! ### re-labelling, `split_into_blocks` -/
+
+/-- re-labelling a block of ids: apply the id maps, sort again (`Block.__init__`) -/
+def relabelBlock (f g : Int → Int) (b : List Int × List Int) : List Int × List Int :=
+  (sortInts (b.1.map f), sortInts (b.2.map g))
+
+/-- a Python `set` of ints, as far as membership goes: first occurrences -/
+def dedupI : List Int → List Int
+  | [] => []
+  | x :: xs => x :: (dedupI xs).filter fun y => y != x
+
+/-- `_resolve_steady_wrt`: the unknowns of the steady system are the quantities that can be exogenized,
+minus those the plan exogenizes, plus those it endogenizes
+(`(wrt_names - set(exogenized)) | set(endogenized)`), as a sorted tuple of qids -/
+def wrtQids (canExo exo endo : List Int) : List Int :=
+  sortInts (dedupI ((canExo.filter fun q => !exo.contains q) ++ endo))
+
+/-- `_calculate_steady_incidence_matrix`: equation × unknown; a token counts whatever its shift, and only
+when its qid is among the unknowns (`qid_to_column.get(tok.qid)`) -/
+def steadyInc (tokens : List (List Int)) (wrt : List Int) : List (List Bool) :=
+  tokens.map fun toks => wrt.map fun q => toks.contains q
+
+/-- `Simultaneous.split_into_blocks(plan)` up to the name lookup of `HumanBlock`: `blaze` on the steady
+incidence matrix of the solved equations (`tokens[i]` = qids occurring in equation `eids[i]`) -/
+def splitIntoBlocks (tokens : List (List Int)) (eids canExo exo endo : List Int) (rp cp : List Nat) :
+    Except Err (List (List Int × List Int)) :=
+  blaze (steadyInc tokens (wrtQids canExo exo endo)) eids (wrtQids canExo exo endo) rp cp
+
+/-- `HumanBlock(block, equations, quantities)`: ids (already sorted) looked up in the name tables -/
+def humanBlock (eqName qName : Int → String) (b : List Int × List Int) : List String × List String :=
+  (b.1.map eqName, b.2.map qName)
+
 end IrisVerif.Blazer
